@@ -26,6 +26,7 @@ import (
 
 	"github.com/Breeze0806/gobinlog/replication"
 	"verif/chk"
+	"verif/e2"
 	"verif/e3/util"
 	"verif/ref"
 )
@@ -33,8 +34,9 @@ import (
 func init() { chk.Register(&chk.Check{ID: "C12", Run: run, Replay: replay}) }
 
 const (
-	envChild = "VERIF_C12_TZCHILD" // zone name: run the timestamp part only and print a summary
-	envOne   = "VERIF_C12_ONE"     // JSON input: check this single cell only (recheck / replay)
+	envChild = "VERIF_C12_TZCHILD"  // zone name: run the timestamp part only and print a summary
+	envOne   = "VERIF_C12_ONE"      // JSON input: check this single cell only (recheck / replay)
+	envSet   = "VERIF_C12_SETLOCAL" // the child starts with TZ=UTC and assigns time.Local = zone at run time
 	marker   = "C12CHILD "
 )
 
@@ -48,6 +50,9 @@ type input struct {
 	Raw  []byte `json:"raw"`
 	Want []byte `json:"want"`
 	TZ   string `json:"tz,omitempty"`
+	// SetLocal: the process starts in UTC and the zone is assigned to
+	// time.Local at run time (after every package has been initialised).
+	SetLocal bool `json:"set_local,omitempty"`
 	// Pred, when set, is the cell that was decoded immediately before this one
 	// in the same process: the counterexample is the sequence (Pred, this cell).
 	Pred *input `json:"pred,omitempty"`
@@ -198,7 +203,8 @@ type sink struct {
 	keys sync.Map // key -> *best
 	// pred is the cell decoded just before the current one (set only in the
 	// single-threaded sequential walks; nil elsewhere)
-	pred *input
+	pred     *input
+	setLocal bool
 }
 
 type best struct {
@@ -246,7 +252,10 @@ func (s *sink) fail(class string, typ byte, meta uint16, c ref.Cell, why string,
 	if cur := b.cur.Load(); cur != nil && !less(c.Text, c.Raw, cur.Input.Want, cur.Input.Raw) {
 		return
 	}
-	in := input{Type: typ, Meta: meta, Raw: append([]byte{}, c.Raw...), Want: append([]byte{}, c.Text...), TZ: s.zone}
+	in := input{Type: typ, Meta: meta, Raw: append([]byte{}, c.Raw...), Want: append([]byte{}, c.Text...), TZ: s.zone, SetLocal: s.setLocal}
+	if s.setLocal {
+		key += ":zone-assigned-at-run-time"
+	}
 	what := fmt.Sprintf("%s: type %d meta %d raw % x: %s", key, typ, meta, in.Raw, why)
 	if s.pred != nil {
 		pc := *s.pred
@@ -280,7 +289,7 @@ func (s *sink) failThen(class string, typ byte, meta uint16, c ref.Cell, then *i
 	if b.cur.Load() != nil {
 		return
 	}
-	in := input{Type: typ, Meta: meta, Raw: append([]byte{}, c.Raw...), Want: append([]byte{}, c.Text...), TZ: s.zone, Plain: true, Then: then}
+	in := input{Type: typ, Meta: meta, Raw: append([]byte{}, c.Raw...), Want: append([]byte{}, c.Text...), TZ: s.zone, Plain: true, Then: then, SetLocal: s.setLocal}
 	b.cur.Store(&childViolation{Key: key, What: fmt.Sprintf("%s: type %d meta %d raw % x: %s", key, typ, meta, in.Raw, why), Input: in})
 }
 
@@ -310,6 +319,9 @@ func (s *sink) report() {
 }
 
 func replay(kind string, raw json.RawMessage) (bool, string) {
+	if kind == "schema" {
+		return e2.ReplaySchema(raw)
+	}
 	var in input
 	if err := json.Unmarshal(raw, &in); err != nil {
 		return false, err.Error()
@@ -754,7 +766,17 @@ func child(r *chk.Run, zone string) {
 		cs.Error = fmt.Sprintf("time.LoadLocation(%q): %v", zone, err)
 		emit(cs)
 	}
-	if os.Getenv("TZ") != zone {
+	setLocal := os.Getenv(envSet) != ""
+	if setLocal {
+		// an application may choose its zone in main(), after the packages it
+		// imports have been initialised: "the process's local time zone" is
+		// whatever time.Local is when a cell is decoded
+		if os.Getenv("TZ") != "UTC" {
+			cs.Error = fmt.Sprintf("set-local child started with TZ=%q, expected UTC", os.Getenv("TZ"))
+			emit(cs)
+		}
+		time.Local = loc
+	} else if os.Getenv("TZ") != zone {
 		cs.Error = fmt.Sprintf("child started with TZ=%q, expected %q", os.Getenv("TZ"), zone)
 		emit(cs)
 	}
@@ -778,7 +800,7 @@ func child(r *chk.Run, zone string) {
 		emit(cs)
 	}
 
-	s := &sink{r: r, zone: zone}
+	s := &sink{r: r, zone: zone, setLocal: setLocal}
 	var c counters
 	workers := r.Workers()
 	full := r.Thorough()
@@ -970,6 +992,12 @@ func child(r *chk.Run, zone string) {
 		c.evals.Add(2)
 	}
 
+	if setLocal {
+		cs.Bounds = fmt.Sprintf("process started in UTC, time.Local assigned at run time: %d boundary instants x TIMESTAMP and TIMESTAMP2 fsp 0..6 x fraction lattice, and the sequential walks", len(lats))
+		cs.Evals, cs.Distinct = c.evals.Load(), 0
+		cs.Violations = s.flush()
+		emit(cs)
+	}
 	// 2. the seconds around every hour of 1970..2038 (old TIMESTAMP and TIMESTAMP2, fsp and fraction cycling)
 	var cut atomic.Bool
 	par := func(fn func(shard, n int)) {
@@ -1082,6 +1110,11 @@ func spawn(zone string, extra ...string) (*childSummary, error) {
 		env = append(env, kv)
 	}
 	cmd.Env = append(env, "TZ="+zone, envChild+"="+zone)
+	for _, x := range extra {
+		if x == envSet+"=1" {
+			cmd.Env = append(env, "TZ=UTC", envChild+"="+zone)
+		}
+	}
 	cmd.Env = append(cmd.Env, extra...)
 	cmd.Stderr = os.Stderr
 	out, err := cmd.Output()
@@ -1106,7 +1139,11 @@ func spawn(zone string, extra ...string) (*childSummary, error) {
 // childOne checks one cell in a process whose zone is in.TZ.
 func childOne(in input) string {
 	b, _ := json.Marshal(in)
-	cs, err := spawn(in.TZ, envOne+"="+string(b))
+	extra := []string{envOne + "=" + string(b)}
+	if in.SetLocal {
+		extra = append(extra, envSet+"=1")
+	}
+	cs, err := spawn(in.TZ, extra...)
 	if err != nil {
 		chk.Fatalf("%v", err)
 	}
@@ -1239,6 +1276,10 @@ func run(r *chk.Run) {
 		s.report()
 		walls[name] = float64(int(time.Since(t0).Seconds()*10)) / 10
 	}
+	// end to end: the precision of a temporal column lives in the table-map
+	// metadata only; a table id announced again with other precisions must be
+	// decoded with the new ones (engine E2)
+	phase("schema change (E2)", func() { e2.RunSchemaChange(r) })
 	phase("sequential walks", func() { runWalks(r, s, &c) })
 	phase("date", func() { runDates(r, s, &c) })
 	phase("time 3-byte", func() { runTime3(r, s, &c) })
@@ -1274,6 +1315,21 @@ func run(r *chk.Run) {
 			in := v.Input
 			r.Report(chk.Violation{Key: v.Key, What: v.What, Kind: "cell-tz", Replay: in,
 				Recheck: func() string { return childOne(in) }})
+		}
+		if zone != "UTC" {
+			// the same zone, assigned to time.Local at run time by a process that started in UTC
+			var cs2 *childSummary
+			phase("timestamp "+zone+" (assigned at run time)", func() { cs2, err = spawn(zone, envSet+"=1", "VERIF_BUDGET_S=20") })
+			if err != nil {
+				chk.Fatalf("%v", err)
+			}
+			r.Eval(cs2.Evals)
+			r.Set("timestamp["+zone+", assigned at run time]", cs2.Bounds)
+			for _, v := range cs2.Violations {
+				in := v.Input
+				r.Report(chk.Violation{Key: v.Key, What: v.What, Kind: "cell-tz", Replay: in,
+					Recheck: func() string { return childOne(in) }})
+			}
 		}
 	}
 	r.Set("zones", Zones)
